@@ -31,7 +31,8 @@ func c07Specs(tier string) []*h.SeqSpec {
 		name string
 		v    int64
 	}
-	limits := []lim{{"default", 0}, {"one", one}}
+	// "exact": the limit is, to the byte, the size of the page that lists the largest descriptor alone (it still fits)
+	limits := []lim{{"default", 0}, {"one", one}, {"exact", one - 8}}
 	if tier == "thorough" {
 		limits = append(limits, lim{"two", two})
 	}
@@ -41,6 +42,9 @@ func c07Specs(tier string) []*h.SeqSpec {
 	for _, store := range []string{"mem", "dir"} {
 		for _, lm := range limits {
 			store, lm := store, lm
+			if lm.name == "exact" && store == "dir" && tier != "thorough" {
+				continue // the boundary is a property of the splitting code, the same for both stores: one store in the quick tier
+			}
 			var ops []h.Op
 			art := func(name, tag string) h.Op {
 				base := opPushMan("C07", repo, f, name, tag)
